@@ -27,7 +27,6 @@ ASSUMPTIONS = [
     "the DFT size is the one observed in the computer's get_truncated_response calls and must equal the documented rule (frame length, padded to the nearest power of two >= it when pad_to_nearest_power_of_two); if none is observed the documented rule is used",
     "window samples come from a fresh WindowFunction of the configured kind (tied to closed forms by C20)",
     "the absolute tolerance term is never below 1e-12 x (sum over bins of |DFT|^p): coefficients of a filter whose response is < 1e-12 on the whole grid are the bank's own rounding noise; nor below 1e-16 x (sum of |frame samples|)^p, the rounding level of the DFT of the frame itself (matters for windows that are ~1e-17 at width 2)",
-    "real filters: a response value below 1e-6 on the 0 Hz or Nyquist bin is the bank's rounding noise (sqrt of a rounding error for Fbank vertices), added to the absolute term",
 ]
 ANCHOR_FILES = ("src/pydrobert/speech/compute.py", "src/pydrobert/speech/filters.py")
 EXHAUSTIVE_PARTS = []
@@ -162,20 +161,9 @@ class StftMonitor:
         rtol, atol = (1e-2, 1e-3) if f16 else (1e-4, 1e-6) if f32 else (1e-7, 1e-10)
         if f16:
             self.rec.count("stft_float16_inputs")
-        # a real filter's rebuilt response holds its 0 Hz and Nyquist bins once; what the documented banks put there is
-        # exactly zero (vertices lie inside [0, Nyquist]) or rounding noise (an Fbank response is the square root of a
-        # triangle, so a vertex on a bin reads ~1e-8).  Noise there is not the filter's response: it enters the absolute term.
-        edge = 0.0
-        if comp.bank.is_real:
-            pw = 2 if g["use_power"] else 1
-            edge = np.zeros(F)
-            for fi, h in enumerate(H):
-                e = max(abs(h[0]), abs(h[D // 2]) if D % 2 == 0 else 0.0)
-                if 0 < e < 1e-6:
-                    edge[int(g["energy"]) + fi] = 2 * e ** pw * R.stft_ref.last_xscale
-            if np.any(edge):
-                self.rec.count("real_filters_with_rounding_noise_on_dc_or_nyquist_bin")
-        ok, i, detail = R.compare_features(got, want, g["use_log"], config.LOG_FLOOR_VALUE, rtol, atol, R.stft_ref.last_xscale, abs_extra=edge)
+        if comp.bank.is_real and any(abs(h[0]) > 1e-3 or (D % 2 == 0 and abs(h[D // 2]) > 1e-3) for h in H):
+            self.rec.count("real_filter_with_response_on_the_0Hz_or_nyquist_bin")
+        ok, i, detail = R.compare_features(got, want, g["use_log"], config.LOG_FLOOR_VALUE, rtol, atol, R.stft_ref.last_xscale)
         if not ok:
             col = None if i is None else i[1]
             which = "energy" if (g["energy"] and col == 0) else "filter %s" % (None if col is None else col - int(g["energy"]))
@@ -271,7 +259,9 @@ def run_case(case, rec, mon=None):
 def make_cfg(seed, idx):
     rng = rng_for(seed, "C02", idx, 0)
     r = rng.random()
-    if r < 0.55:
+    if idx % 8 == 3:
+        kinds = ("vfrealcos",)  # user-defined real bank with response on the 0 Hz / Nyquist bins
+    elif r < 0.55:
         kinds = ("gabor", "gammatone")  # complex banks: the mirrored / wrapping branch
     elif r < 0.7:
         kinds = ("tri", "fbank")
